@@ -201,7 +201,28 @@ def generate(rng, n, tier):
         points = _points(rng, dim)
         r = rng.random()
         boundary = rng.random() < 0.06
-        if r < 0.62:
+        if r < 0.12:
+            # augmented-Lagrangian usage: store(x); iter() cycles on Lagrange kinds (multiplier histories with n >= 1)
+            depth = rng.choice([1, 1, 2, 3])
+            kinds = [rng.choice(sorted(LAGR)) if j == 0 or rng.random() < 0.6 else rng.choice(KINDS) for j in range(depth)]
+            levels = []
+            for kd in kinds:
+                lv = _level(rng, dim, points, [kd])
+                if rng.random() < 0.85:
+                    lv["cond"]["t"] = "lin"
+                if rng.random() < 0.5:
+                    lv["k"], lv["h"] = rng.choice([(1, 2), (0.5, 2), (2, 1), (1, 1), (20, 5), ("absent", "absent")])
+                levels.append(lv)
+            sc = []
+            for it in range(rng.randint(1, 6)):
+                if rng.random() < 0.85:
+                    sc.append(["store", rng.randrange(depth) if rng.random() < 0.2 else 0, rng.randrange(len(points)), None])
+                sc.append(["iter", 0, None])
+            if rng.random() < 0.2:
+                sc.append(["store", 0, rng.randrange(len(points)), rng.choice([0, 1, 2])])
+            yield dict(mode="nest", dim=dim, points=points, top=dict(levels=levels, base=_base(rng, dim), with_penalty=False),
+                       members=[], script=sc)
+        elif r < 0.62:
             nest = _nest(rng, dim, points, boundary=boundary)
             # single-kind sweeps keep every kind well represented at depth 1
             if rng.random() < 0.35:
